@@ -546,6 +546,9 @@ def c19_run(case):
             except httping.HTTPException as ex:
                 out["raised"] = (type(ex).__name__, False)
                 break
+            except Exception as ex:      # whatever escapes Client.service() is an observation (judged by the oracle), never an adapter crash
+                out["raised"] = (type(ex).__name__, False)
+                break
             world.note_read()
             world.tick()
             tymist.tick()
@@ -587,7 +590,8 @@ C14_BOUNDARY = ("____________{0:012x}".format(C14_BOUNDARY_N)).encode("ascii")
 
 def c14_seq_run(specs, sched):
     """specs = [(method, path, qargs, headers, bkind, bval, explicit_cl, fresh)], as c14_run plus `fresh`: build with a new Requester
-    (True) or by Requester.rebuild() on the previous one (False, what Client.transmit does).
+    (True) or by Requester.rebuild() on the previous one (False, what Client.transmit does), or 2: rebuild() WITHOUT path=, i.e. the
+    stored path of the previous request is used again (the spec's own path field is then ignored).
     sched = (cuts, gap): cut points into the concatenated request stream, `gap` service cycles after each piece.
     returns dict(builts=[bytes | ('raise', cls)], views=[dict], leftover=bytes, closed=bool, raised=None|cls)"""
     import json
@@ -616,10 +620,12 @@ def c14_seq_run(specs, sched):
                 fargs = dict((k.decode("utf-8"), v.decode("utf-8")) for k, v in bval)
             qd = dict((k.decode("utf-8"), v.decode("utf-8")) for k, v in qargs)
             try:
-                if requester is None or fresh:
+                if requester is None or fresh is True or fresh == 1:
                     requester = clienting.Requester(hostname="example.com", port=8080, method=method.decode("utf-8"), path=path.decode("utf-8"),
                                                     qargs=qd, headers=hhelp.Hict(hs), body=body, data=data, fargs=fargs)
                     msg = requester.build()
+                elif fresh == 2:      # no path=: the Requester's stored path (that of its previous request) is used again
+                    msg = requester.rebuild(method=method.decode("utf-8"), qargs=qd, headers=hhelp.Hict(hs), body=body, data=data, fargs=fargs)
                 else:
                     msg = requester.rebuild(method=method.decode("utf-8"), path=path.decode("utf-8"), qargs=qd, headers=hhelp.Hict(hs),
                                             body=body, data=data, fargs=fargs)
